@@ -188,6 +188,8 @@ def match_finding(stage, job):
         if re.search(r"expected specifier-qualifier-list before .typedef.|invalid use of undefined type .struct \w*Member\w*", blog) \
            and "-fcompound-names" in opts and nested_anon_of(text):
             return "C10-nested-anonymous-of-struct"
+        if re.search(r"before .-. token|asn_DFL_\d+_(cmp|set)_. undeclared", blog) and re.search(r"\bDEFAULT\s+-\s*\d", strip_comments(text)):
+            return "C10-negative-integer-default"
         if re.search(r"unknown type name|does not name a type", blog) and param_nested(text):
             return "C10-param-circular-include"
         if re.search(r"empty enum is invalid|asn_MAP_\w+_tag2el_\d+. undeclared", blog) and has_empty_set(text):
